@@ -126,7 +126,14 @@ ASMJIT_FAVOR_SIZE Error FuncArgsContext::init_work_data(const FuncFrame& frame, 
             // The best case, register is allocated where it is expected to be. However, we should
             // not mark this as done if both registers are GP and sign or zero extension is required.
             if (dst_group != RegGroup::kGp) {
-              var.mark_done();
+              // Not done if emit_arg_move() would convert between single and double precision.
+              TypeId dst_scalar_id = TypeUtils::scalar_of(dst.type_id());
+              TypeId src_scalar_id = TypeUtils::scalar_of(src.type_id());
+              bool needs_conversion = (dst_scalar_id == TypeId::kFloat32 && src_scalar_id == TypeId::kFloat64) ||
+                                      (dst_scalar_id == TypeId::kFloat64 && src_scalar_id == TypeId::kFloat32);
+              if (!needs_conversion) {
+                var.mark_done();
+              }
             }
             else {
               TypeId dt = dst.type_id();
